@@ -384,8 +384,13 @@ class Uri(six.text_type):
 
     def __eq__(self, other):
         if not isinstance(other, Uri):
-            return NotImplemented
+            # Not NotImplemented: Python would then fall back on the plain
+            # string comparison and find a Uri equal to a str of same text.
+            return False
         return super(Uri, self).__eq__(other)
+
+    def __ne__(self, other):
+        return not (self == other)
 
 
 class Bin(six.text_type):
@@ -401,8 +406,12 @@ class Bin(six.text_type):
 
     def __eq__(self, other):
         if not isinstance(other, Bin):
-            return NotImplemented
+            # See Uri.__eq__
+            return False
         return super(Bin, self).__eq__(other)
+
+    def __ne__(self, other):
+        return not (self == other)
 
 
 class XStr(object):
